@@ -1,7 +1,7 @@
 (* C14: import (export x) = x for the clp and dispensation stores (and hence export (import (export x)) = export x). *)
 From Coq Require Import ZArith Lia Bool List.
 From RecordUpdate Require Import RecordUpdate.
-From Sif Require Import Base.Outcome Base.Store Base.Bank Model.ClpTypes Model.ClpPolicy Model.Dispensation Model.Genesis
+From Sif Require Import Base.Outcome Base.Store Base.Bank Model.ClpTypes Model.ClpPolicy Model.Dispensation Model.Margin Model.Genesis
   Proofs.DispProofs.
 Import ListNotations.
 Local Open Scope Z_scope.
@@ -233,3 +233,81 @@ Proof.
   destruct (key_eqb k k'); [exact H2|]. cbn [tasc]. split; [|apply IH; exact H2].
   rewrite Forall_forall in *. intros e He. apply H1. eapply in_rdel; exact He.
 Qed.
+
+(* ---------- x/margin ---------- *)
+Definition ids_pos (m : store (store mtp)) : Prop := forall e, In e (flatten m) -> 1 <= fst (snd e).
+Record MarginWF (c : margin_carried) : Prop := mkMWF {
+  mw_outer : wf (mc_mtps c);
+  mw_inner : Forall (fun kv : Z * store mtp => snd kv <> [] /\ wf (snd kv)) (mc_mtps c);
+  mw_ids : ids_pos (mc_mtps c);                                   (* ids are handed out from 1 *)
+  mw_open : mc_open c = Z.of_nat (length (flatten (mc_mtps c)));  (* C13: the open counter counts the stored positions *)
+  mw_count : forall e, In e (flatten (mc_mtps c)) -> fst (snd e) <= mc_count c
+}.
+
+Lemma import_mtp_nonzero l : (forall e, In e l -> fst (snd e) <> 0) -> forall m cnt op,
+  fold_left import_mtp l (m, cnt, op) =
+  (fold_left (fun m e => nset (fst e) (fst (snd e)) (snd (snd e)) m) l m, cnt, op).
+Proof.
+  induction l as [|e l IH]; intros H m cnt op; [reflexivity|]. cbn [fold_left]. unfold import_mtp at 2.
+  destruct (Z.eqb_spec (fst (snd e)) 0) as [E|_]; [exfalso; exact (H e (or_introl eq_refl) E)|].
+  apply IH. intros e' He'. apply H. right; exact He'.
+Qed.
+
+Lemma fold_max_ge l : forall a, a <= fold_left Z.max l a.
+Proof. induction l as [|x l IH]; intros a; cbn [fold_left]; [lia|]. specialize (IH (Z.max a x)). lia. Qed.
+Lemma fold_max_in l : forall a x, In x l -> x <= fold_left Z.max l a.
+Proof.
+  induction l as [|y l IH]; intros a x H; [destruct H|]. destruct H as [<-|H]; cbn [fold_left].
+  - pose proof (fold_max_ge l (Z.max a y)). lia.
+  - apply IH; exact H.
+Qed.
+Lemma fold_max_le l b : forall a, a <= b -> (forall x, In x l -> x <= b) -> fold_left Z.max l a <= b.
+Proof.
+  induction l as [|y l IH]; intros a Ha H; cbn [fold_left]; [exact Ha|].
+  apply IH; [pose proof (H y (or_introl eq_refl)); lia | intros x Hx; apply H; right; exact Hx].
+Qed.
+
+(* C14 for x/margin: parameters, positions and the open counter come back exactly; the id counter comes back as the
+   highest id among the open positions: at least every stored id (so the next id is fresh), at most the old counter *)
+Theorem import_export_margin c : MarginWF c ->
+  let c' := import_margin (export_margin c) in
+  mc_params c' = mc_params c /\ mc_mtps c' = mc_mtps c /\ mc_open c' = mc_open c /\
+  (forall e, In e (flatten (mc_mtps c')) -> fst (snd e) <= mc_count c') /\ 0 <= mc_count c' /\ (0 <= mc_count c -> mc_count c' <= mc_count c).
+Proof.
+  intros [Ho Hi Hids Hop Hcnt]. destruct c as [ps mtps cnt op wl]. cbn [mc_params mc_mtps mc_count mc_open] in *.
+  cbv zeta. unfold import_margin, export_margin. cbn [mg_params mg_mtps mc_params mc_mtps mc_count mc_open].
+  rewrite import_mtp_nonzero by (intros e He; specialize (Hids e He); lia).
+  assert (E : of_flat (fun x : mtp => x) (flatten mtps) = mtps).
+  { apply (of_flat_id (fun x : mtp => x) mtps Ho). eapply Forall_impl; [|exact Hi]. intros kv (H1 & H2). split; [exact H1|]. split; [exact H2|]. reflexivity. }
+  unfold of_flat in E. cbn beta in E. rewrite E.
+  destruct (flatten mtps) as [|e0 l0] eqn:EF.
+  - cbn [mc_params mc_mtps mc_open mc_count]. rewrite Hop. cbn. repeat split; try reflexivity; try lia. intros e He. rewrite EF in He. destruct He.
+  - cbn [mc_params mc_mtps mc_open mc_count]. rewrite Hop. repeat split; try reflexivity.
+    + intros e He. rewrite EF in He. unfold max_id.
+      pose proof (fold_max_in (map (fun e => fst (snd e)) (e0 :: l0)) 0 (fst (snd e)) (in_map _ _ _ He)). lia.
+    + unfold max_id. pose proof (fold_max_ge (map (fun e => fst (snd e)) (e0 :: l0)) 0). lia.
+    + intros Hc. apply Z.max_lub; [exact Hc|]. unfold max_id. apply fold_max_le; [exact Hc|].
+      intros x Hx. apply in_map_iff in Hx. destruct Hx as (e & <- & He). apply Hcnt. exact He.
+Qed.
+
+Corollary reexport_margin c : MarginWF c -> export_margin (import_margin (export_margin c)) = export_margin c.
+Proof.
+  intros H. destruct (import_export_margin c H) as (E1 & E2 & _). unfold export_margin at 1. rewrite E1, E2. reflexivity.
+Qed.
+
+(* what the format does not carry: the lifetime counter when the positions opened last were closed (F-19), and the whitelist (F-20) *)
+Definition mc_example : margin_carried :=
+  mkMC (mkMParams 0 0 1 false 0 0 0 0 [] [] false 0 false 0 0 1) [(10, [(1, mkMtp 0 5 5 0 0 0 2 7 2 0)])] 2 1 [14].
+Lemma mc_example_wf : MarginWF mc_example.
+Proof.
+  constructor; cbn.
+  - exists 0. cbn. auto with zarith.
+  - constructor; [|constructor]. cbn. split; [discriminate|]. exists 0. cbn. auto with zarith.
+  - intros e [<-|[]]. cbn. lia.
+  - reflexivity.
+  - intros e [<-|[]]. cbn. lia.
+Qed.
+Lemma margin_lifetime_counter_refuted : exists c, MarginWF c /\ mc_count (import_margin (export_margin c)) <> mc_count c.
+Proof. exists mc_example. split; [exact mc_example_wf|]. vm_compute. discriminate. Qed.
+Lemma margin_whitelist_refuted : exists c, MarginWF c /\ mc_whitelist (import_margin (export_margin c)) <> mc_whitelist c.
+Proof. exists mc_example. split; [exact mc_example_wf|]. vm_compute. discriminate. Qed.
